@@ -51,6 +51,30 @@ func cmdVerify(args []string) {
 	bad := 0
 	for _, name := range fs.Args() {
 		fn := eng.Func(strings.SplitN(name, "#", 2)[0])
+		if strings.HasPrefix(name, "lemma:") {
+			v, err := eng.VerifyLemma(strings.TrimPrefix(name, "lemma:"))
+			if err != nil {
+				fmt.Println("lemma:", err)
+				bad++
+				continue
+			}
+			for _, u := range v.Unsupp {
+				fmt.Println("  UNSUPPORTED:", u)
+			}
+			for _, r := range vc.DischargeAll(v.Obls, *timeout, 12, false) {
+				mark := "ok  "
+				if !r.OK {
+					mark = "FAIL"
+					bad++
+					if *dump != "" {
+						os.MkdirAll(*dump, 0o755)
+						os.WriteFile(fmt.Sprintf("%s/lemma_%s.smt2", *dump, strings.TrimPrefix(name, "lemma:")), []byte(r.Obl.Query()), 0o644)
+					}
+				}
+				fmt.Printf("  %s %-8s %-7s %5.2fs %s   %s\n", mark, r.Status, r.Solver, r.Seconds, r.Obl.Name, r.Obl.Desc)
+			}
+			continue
+		}
 		if fn == nil {
 			fmt.Println("not found:", name, "candidates:", eng.FuncNames(name[strings.LastIndex(name, ".")+1:]))
 			bad++
